@@ -324,13 +324,14 @@ class Ctx:
             for cfg in valuations(space):
                 yield kind, cfg, self.paths(spec, kind, cfg, max_iter)
 
-    def fn_paths(self, module, fn, cfg=None, extra_env=None, max_iter=None, inline=True, roles=None, ctxb=None):
+    def fn_paths(self, module, fn, cfg=None, extra_env=None, max_iter=None, inline=True, roles=None, ctxb=None, no_inline=(), only_inline=None):
         """Paths of a plain function (no event kind); ctxb binds parameters of the enclosing factories."""
         spec = HandlerSpec(module, fn, None, roles=roles, ctx=ctxb)
         mi = max_iter or self.max_iter
-        key = ("fn", id(fn), tuple(sorted((cfg or {}).items())), mi, tuple(sorted((extra_env or {}).items())), inline, spec.ctx_key)
+        key = ("fn", id(fn), tuple(sorted((cfg or {}).items())), mi, tuple(sorted((extra_env or {}).items())), inline, spec.ctx_key,
+               tuple(id(f) for f in no_inline), None if only_inline is None else tuple(sorted(id(f) for f in only_inline)))
         if key not in self._cache:
-            ps = self.ex.run(spec, None, cfg or {}, max_iter=mi, extra_env=extra_env, inline=inline)
+            ps = self.ex.run(spec, None, cfg or {}, max_iter=mi, extra_env=extra_env, inline=inline, no_inline=no_inline, only_inline=only_inline)
             self.total_paths += len(ps)
             self._cache[key] = ps
         return self._cache[key]
